@@ -1,7 +1,7 @@
 (* Extraction of the executable model. ExtrOcamlBasic only; N/Z/positive/nat stay inductive. *)
 From Coq Require Extraction ExtrOcamlBasic.
 From Base Require Import PyStr.
-From Model Require Import Wrap RxPort Tags LineWrap Frontmatter FsOps Cli Typography.
+From Model Require Import Wrap RxPort Tags LineWrap Frontmatter FsOps Cli Typography Ast Transforms Render Pipeline.
 
 Extraction Language OCaml.
 Extraction "model.ml"
@@ -16,4 +16,5 @@ Extraction "model.ml"
   split_frontmatter fill_markdown_fm
   run_prog target_okb
   main_run merge_fields find_config
-  smart_quotes ellipses.
+  smart_quotes ellipses
+  dedent prepare_body render_parsed transform_doc render_doc doc_cleanups coalesce_doc.
